@@ -25,7 +25,7 @@ class C02(ProgramProp):
                    "wrong numbers and crashes on stratified programs are reported by C01"]
     families = {
         "quick": [("F1.4s", 128), ("F3.2", 48), ("F1.3s", 24), ("F1.2", 96), ("F1.1", 4)],
-        "thorough": [("F1.4s", 128), ("F3.3", 256), ("F1.3", 1024), ("F3.2", 64), ("F1.3s", 48), ("F1.2", 128), ("F1.1", 4)],
+        "thorough": [("F1.4s", 128), ("F3.3/4", 128), ("F1.3/64", 256), ("F3.2", 64), ("F1.3s", 48), ("F1.2", 128), ("F1.1", 4)],
     }
     skip_negcycle = False
     strong_shrink = True  # merge predicates / swap clauses: one engine defect, many program shapes
